@@ -61,10 +61,15 @@ where
                             acc.nontrivial += 1;
                         }
                         acc.hist(&format!("schedules_with_{}_deviations", dev));
-                        // the replayed prefix must have been followed exactly
-                        assert!(trace.len() >= prefix.len(), "run ended before its prefix was consumed");
-                        assert_eq!(&trace[..prefix.len()], &prefix[..], "prefix divergence while replaying");
-                        if dev < bound {
+                        // the replayed prefix must have been followed exactly; if it was not, the
+                        // subject's call pattern depends on state outside the scenario (a warm
+                        // per-thread buffer, say): the run itself was still a legitimate schedule
+                        // and has been judged, but nothing is derived from it
+                        let followed = trace.len() >= prefix.len() && trace[..prefix.len()] == prefix[..];
+                        if !followed {
+                            acc.count("schedules_whose_prefix_was_not_replayed_exactly", 1);
+                        }
+                        if followed && dev < bound {
                             for i in prefix.len()..trace.len() {
                                 let (c, n) = trace[i];
                                 debug_assert_eq!(c, 0);
